@@ -1,10 +1,23 @@
 (** Top-level statements about Parse: the machine started by p.parse on a reset state returns what
     the reference semantics says, for every memo / inline setting the generator can choose. *)
-From PegV Require Import Base.Tac Base.ListX Spec.Syntax Spec.Peg Model.Machine Model.Runtime Model.Analyses Model.Gen
+From PegV Require Import Base.Tac Base.ListX Spec.Syntax Spec.Peg Model.Machine Model.SkipCheck Model.Runtime Model.Analyses Model.Gen
   Spec.Tokens Spec.WF Proofs.PegFacts Proofs.Sim Proofs.AsuSound Proofs.Forest Proofs.RuntimeProofs Proofs.Total.
 
 Definition good_grammar (g : grammar) : Prop := forall r b, nth_error g r = Some (RBody b) -> expr_ok b = true.
 Definition good_buf (buf : list rune) : Prop := forall c, In c buf -> c <> endSymbol.
+
+(** every switch node is well guarded, whichever rules end up inlined (vacuous without -switch) *)
+Definition good_switches (g : grammar) : Prop :=
+  forall inline, grammar_swok g (fun r => nth r (inline_table inline g) false).
+Definition good_switches_b (g : grammar) : bool :=
+  let fuel := S (gsize g) * S (length g) in
+  grammar_swok_b g (fun r => nth r (inline_table true g) false) fuel &&
+  grammar_swok_b g (fun r => nth r (inline_table false g) false) fuel.
+Lemma good_switches_b_ok g : good_switches_b g = true -> good_switches g.
+Proof.
+  unfold good_switches_b. intros H inline. apply andb_true_iff in H as [H1 H2].
+  destruct inline; eapply grammar_swok_b_sound; eauto.
+Qed.
 
 Lemma good_grammar_b_ok g : good_grammar_b g = true -> good_grammar g.
 Proof.
@@ -27,6 +40,7 @@ Variable buf : list rune.
 Variable penv : nat -> nat -> bool.
 Hypothesis Hg : good_grammar g.
 Hypothesis Hbuf : good_buf buf.
+Hypothesis Hsw : good_switches g.
 
 (** The result of p.parse(r) on a parser that was Reset: any previous state [st0] only survives
     as the stale token slice. *)
@@ -44,16 +58,17 @@ Definition parse_spec (o : opts) (n r : nat) (st0 : mstate) (rr : out) : Prop :=
 Theorem parse_correct_gen (o : opts) :
   o_ast o = true ->
   (forall r, o_asu o r = true -> asu_rule g r = true) ->
+  grammar_swok g (o_inline o) ->
   forall n r st0 rr, o_inline o r = false ->
     peg_parse g ptx buf penv n r = Some rr -> parse_spec o n r st0 rr.
 Proof.
-  intros Hast Hasu n r st0 rr Hinl H. unfold peg_parse in H.
+  intros Hast Hasu Hswo n r st0 rr Hinl H. unfold peg_parse in H.
   assert (Hasu' : forall r, o_asu o r = true -> forall n p evs, peg_ev g ptx buf penv n (EName r) p <> Some (Fail, evs)).
   { intros r' Hr'. apply asu_rule_sound. apply Hasu. exact Hr'. }
   set (st := reset st0).
   assert (Hok : okst buf st) by (unfold okst, st, reset; cbn; lia).
   assert (Hm : memo_ok g ptx buf penv st) by (intros r' p' m' Hl; discriminate).
-  pose proof (sim g ptx buf penv o Hast Hg Hasu' Hbuf n (EName r) st rr Hok Hm eq_refl H) as HS.
+  pose proof (sim g ptx buf penv o Hast Hg Hswo Hasu' Hbuf n (EName r) false false st rr Hok Hm eq_refl I (flag_ok_false g buf o (EName r) false st) H) as HS.
   destruct n as [|n]; [discriminate|].
   assert (Hslot : exists rb, nth_error g r = Some rb /\ rb <> RNil).
   { cbn [peg_ev] in H. destruct (nth_error g r) as [[b|k|]|]; try discriminate; eexists; split; eauto; discriminate. }
@@ -74,8 +89,9 @@ Theorem parse_correct (memo inline : bool) :
   forall n r st0 rr, o_inline o r = false ->
     peg_parse g ptx buf penv n r = Some rr -> parse_spec o n r st0 rr.
 Proof.
-  intros o. apply parse_correct_gen; [reflexivity|].
-  intros r Hr. unfold o, mk_opts in Hr. cbn [o_asu] in Hr. apply nth_map_seq in Hr. exact Hr.
+  intros o. apply parse_correct_gen; [reflexivity| |].
+  - intros r Hr. unfold o, mk_opts in Hr. cbn [o_asu] in Hr. apply nth_map_seq in Hr. exact Hr.
+  - exact (Hsw inline).
 Qed.
 
 End Top.
@@ -88,6 +104,7 @@ Variable buf : list rune.
 Variable penv : nat -> nat -> bool.
 Hypothesis Hg : good_grammar g.
 Hypothesis Hbuf : good_buf buf.
+Hypothesis Hsw : good_switches g.
 
 Definition machine (memo inline : bool) (n r : nat) (st0 : mstate) : option mres :=
   entry g ptx buf penv (mk_opts true memo inline g) n r (reset st0).
@@ -104,7 +121,7 @@ Lemma c01_verdict_prefix memo inline n r st0 rr :
   | Fail => exists st', machine memo inline n r st0 = Some (Ret false st')
   end.
 Proof.
-  intros Hs H. pose proof (parse_correct g ptx buf penv Hg Hbuf memo inline n r st0 rr (slot_ok_memo memo inline r Hs) H) as P.
+  intros Hs H. pose proof (parse_correct g ptx buf penv Hg Hbuf Hsw memo inline n r st0 rr (slot_ok_memo memo inline r Hs) H) as P.
   destruct rr as [[|p f] evs]; cbn [parse_spec fst] in *.
   - destruct P as (st' & R & _). exists st'. exact R.
   - destruct P as (st' & R & P1 & _). exists st'. auto.
@@ -119,7 +136,7 @@ Lemma c03_tokens memo inline n r st0 p f evs :
     live st' = flat kids ++ [(r, (0, p))] /\
     Forall (inb 0 (length buf)) (live st').
 Proof.
-  intros Hs H. pose proof (parse_correct g ptx buf penv Hg Hbuf memo inline n r st0 _ (slot_ok_memo memo inline r Hs) H) as P.
+  intros Hs H. pose proof (parse_correct g ptx buf penv Hg Hbuf Hsw memo inline n r st0 _ (slot_ok_memo memo inline r Hs) H) as P.
   cbn [parse_spec] in P. destruct P as (st' & R & P1 & Pb & L & T & (kids & Hf)).
   exists st', kids. split; [exact R|]. split; [exact L|]. split; [exact Hf|].
   split; [rewrite L, Hf; apply flat_node|].
@@ -137,8 +154,8 @@ Lemma c06_memo_invisible inline n r st0 st0' rr :
     (b = false -> maxtok st1 = maxtok st2).
 Proof.
   intros Hs H.
-  pose proof (parse_correct g ptx buf penv Hg Hbuf true inline n r st0 rr (slot_ok_memo true inline r Hs) H) as P1.
-  pose proof (parse_correct g ptx buf penv Hg Hbuf false inline n r st0' rr (slot_ok_memo false inline r Hs) H) as P2.
+  pose proof (parse_correct g ptx buf penv Hg Hbuf Hsw true inline n r st0 rr (slot_ok_memo true inline r Hs) H) as P1.
+  pose proof (parse_correct g ptx buf penv Hg Hbuf Hsw false inline n r st0' rr (slot_ok_memo false inline r Hs) H) as P2.
   destruct rr as [[|p f] evs]; cbn [parse_spec] in *.
   - destruct P1 as (s1 & R1 & M1). destruct P2 as (s2 & R2 & M2). exists false, s1, s2.
     split; [exact R1|]. split; [exact R2|]. split; [discriminate|]. intros _. congruence.
@@ -159,7 +176,7 @@ Lemma c11_error_token memo inline n r st0 evs :
   exists st', machine memo inline n r st0 = Some (Ret false st') /\
     maxtok st' = first_furthest evs /\ tok_ok (length buf) (maxtok st').
 Proof.
-  intros Hs H. pose proof (parse_correct g ptx buf penv Hg Hbuf memo inline n r st0 _ (slot_ok_memo memo inline r Hs) H) as P.
+  intros Hs H. pose proof (parse_correct g ptx buf penv Hg Hbuf Hsw memo inline n r st0 _ (slot_ok_memo memo inline r Hs) H) as P.
   cbn [parse_spec] in P. destruct P as (st' & R & M). exists st'. split; [exact R|]. split; [exact M|].
   rewrite M. unfold first_furthest. apply fold_upd_ok.
   - unfold tok_ok, zero_tok; cbn; lia.
@@ -175,8 +192,8 @@ Lemma c12_history_irrelevant memo inline n r st0 st0' rr :
     (b = false -> maxtok st1 = maxtok st2).
 Proof.
   intros Hs H.
-  pose proof (parse_correct g ptx buf penv Hg Hbuf memo inline n r st0 rr (slot_ok_memo memo inline r Hs) H) as P1.
-  pose proof (parse_correct g ptx buf penv Hg Hbuf memo inline n r st0' rr (slot_ok_memo memo inline r Hs) H) as P2.
+  pose proof (parse_correct g ptx buf penv Hg Hbuf Hsw memo inline n r st0 rr (slot_ok_memo memo inline r Hs) H) as P1.
+  pose proof (parse_correct g ptx buf penv Hg Hbuf Hsw memo inline n r st0' rr (slot_ok_memo memo inline r Hs) H) as P2.
   destruct rr as [[|p f] evs]; cbn [parse_spec] in *.
   - destruct P1 as (s1 & R1 & M1). destruct P2 as (s2 & R2 & M2). exists false, s1, s2.
     split; [exact R1|]. split; [exact R2|]. split; [discriminate|]. intros _. congruence.
@@ -196,7 +213,7 @@ Proof.
   - destruct (c11_error_token memo inline n r st0 evs Hs H) as (st' & R & _ & T). exists false, st'.
     split; [exact R|]. split; [discriminate|]. auto.
   - destruct (c03_tokens memo inline n r st0 p f evs Hs H) as (st' & kids & R & L & _ & _ & F).
-    pose proof (parse_correct g ptx buf penv Hg Hbuf memo inline n r st0 _ (slot_ok_memo memo inline r Hs) H) as P.
+    pose proof (parse_correct g ptx buf penv Hg Hbuf Hsw memo inline n r st0 _ (slot_ok_memo memo inline r Hs) H) as P.
     cbn [parse_spec] in P. destruct P as (st'' & R' & P1 & Pb & _).
     assert (st'' = st') by (unfold machine in R; congruence). subst st''.
     exists true, st'. split; [exact R|]. split; [|discriminate]. intros _. split; [lia|exact F].
@@ -254,6 +271,26 @@ Proof.
     split; [discriminate|]. intros (p & f & E & _). discriminate.
   - destruct V as (st' & R & P1). exists true, st'. split; [exact H|]. split; [exact R|].
     split; [intros _; exists p, f; auto|reflexivity].
+Qed.
+
+(** C02 (inline part, and the machine side of -switch): the same grammar term run with or without
+    -inline gives the same verdict, prefix and tokens (both equal the semantics). For -switch the
+    term is the optimised tree: the theorem then says that the skip-check flags and the switch
+    dispatch compute the semantics of that tree whenever its switches are well guarded. *)
+Lemma c02_inline_invisible memo memo' inline inline' n r st0 st0' rr :
+  slot_ok inline r -> slot_ok inline' r -> peg_parse g ptx buf penv n r = Some rr ->
+  exists b st1 st2,
+    machine memo inline n r st0 = Some (Ret b st1) /\ machine memo' inline' n r st0' = Some (Ret b st2) /\
+    (b = true -> pos st1 = pos st2 /\ live st1 = live st2).
+Proof.
+  intros Hs Hs' H.
+  pose proof (parse_correct g ptx buf penv Hg Hbuf Hsw memo inline n r st0 rr (slot_ok_memo memo inline r Hs) H) as P1.
+  pose proof (parse_correct g ptx buf penv Hg Hbuf Hsw memo' inline' n r st0' rr (slot_ok_memo memo' inline' r Hs') H) as P2.
+  destruct rr as [[|p f] evs]; cbn [parse_spec] in *.
+  - destruct P1 as (s1 & R1 & M1). destruct P2 as (s2 & R2 & M2). exists false, s1, s2.
+    split; [exact R1|]. split; [exact R2|]. discriminate.
+  - destruct P1 as (s1 & R1 & A1 & _ & L1 & _). destruct P2 as (s2 & R2 & A2 & _ & L2 & _). exists true, s1, s2.
+    split; [exact R1|]. split; [exact R2|]. intros _. split; congruence.
 Qed.
 
 End Corollaries.
